@@ -270,6 +270,23 @@ def run(chk, R, tier, seed):
                         chk, "world-unit", U(s1), U(s2),
                         "units %s and %s" % (s1, s2), "unit-eq-hash",
                         wit_extra=dict(declarations=planj)))
+                    if not t.has_ref and \
+                            ww.units[s1].vec == ww.units[s2].vec:
+                        # no reference unit, but both units are multiples
+                        # of the same base unit(s): the library does not
+                        # convert between them; should an implementation
+                        # call them equal by scale, the hashes must agree
+                        v = rand_fraction(rng, small=True)
+                        subs.append(pair_sub(
+                            chk, "world-quantity-noref",
+                            Q(num(v / ww.units[s1].factor), s1),
+                            Q(num(v / ww.units[s2].factor), s2),
+                            "value %s in %s and in %s (type without "
+                            "reference unit)" % (v, s1, s2),
+                            "quantity-cross-unit",
+                            wit_extra=dict(declarations=planj)))
+                        chk.count("pairs equal by scale in a type without "
+                                  "reference unit")
                     if t.has_ref and t.quantum is None:
                         v = rand_fraction(rng, small=True)
                         subs.append(pair_sub(
